@@ -294,6 +294,15 @@ def run(chk):
             add("any %d %d" % (f, p), "any")
             add("loop %d %d" % (f, p), "loop")
     add("sup", "sup")
+    # ---- NULL pointer arguments at every entry point (each answers its failure value and touches nothing)
+    add("getnull", "null")
+    for ln in (0, 1, 2, 16, 28, 128, 65536):
+        add("fromnative null %d" % ln, "null")
+        add("tonative null %d" % ln, "null")
+        add("tonative nulldest %s %d" % (v4([127, 0, 0, 1], 80), ln), "null")
+        add("tonative nulldest %s %d" % (v6(s6[1], 80, 1, 2), ln), "null")
+    for p in PORTS:
+        add("new null %d" % p, "null")
 
     chk.cov["ops"] = len(ops)
     try:
@@ -314,6 +323,6 @@ def run(chk):
     chk.assumptions += ["Linux x86-64 layout of sockaddr_in / sockaddr_in6 as measured by the translator's offsetof probe (PV.Generated.SA)",
                         "inet_pton / inet_ntop / getaddrinfo (AI_NUMERICHOST) are parameters of the model; their answers are taken from this platform "
                         "(glibc) per input; IPv4 text is additionally checked against the concrete Lean functions ntop4/pton4",
-                        "NULL arguments and allocation failure are not part of this check (C18 covers allocation)",
+                        "allocation failure is not part of this check (C18 covers allocation)",
                         "interface-name scopes (%lo) depend on the interfaces present in the sandbox; numeric scopes do not"]
     return finish(chk)
